@@ -23,3 +23,26 @@ func TestVerifReplayC20RejoinWithNewAddress(t *testing.T) {
 		t.Fatalf("node ids: %v", c.NodeIds())
 	}
 }
+
+// Replay of (*cluster.Conn).AddNode/post#no-address-keeps-known-address (C20): the first node's bootstrap membership entry carries
+// no address (etcd Peer without Context). Applying it must not erase the address the node is already known under - the node
+// registers itself at start-up, and joining members are told that address - or the bootstrap node becomes unreachable.
+func TestVerifReplayC20EntryWithoutAddressKeepsKnownAddress(t *testing.T) {
+	c, err := NewConn(1, ":6000", "")
+	if err != nil {
+		t.Fatal(err)
+	}
+	c.AddNode(1, ":6000") // raft.NewTransport registers the node itself
+	c.AddNode(1, "")      // the bootstrap ConfChangeAddNode of node 1 is applied (empty Context)
+	if got := c.Nodes()[1]; got != ":6000" {
+		t.Fatalf("node 1 is known under :6000; a membership entry without an address left it listed as %q", got)
+	}
+	c.AddNode(7, "") // a member known only from an entry without address is still listed
+	if _, ok := c.Nodes()[7]; !ok {
+		t.Fatalf("node 7 not listed")
+	}
+	c.AddNode(7, "10.0.0.7:6000") // and takes the first address announced for it
+	if got := c.Nodes()[7]; got != "10.0.0.7:6000" {
+		t.Fatalf("node 7 announced 10.0.0.7:6000, listed as %q", got)
+	}
+}
